@@ -410,6 +410,12 @@ func writersWith(f *ssa.Function, mask origin, ret func(g *ssa.Function) origin)
 			if o := oa.of(x.Map); o&mask != 0 {
 				out = append(out, fmt.Sprintf("map update at %s into %s memory", f.Prog.Fset.Position(x.Pos()), o&mask))
 			}
+		case *ssa.Call:
+			if b, isB := x.Call.Value.(*ssa.Builtin); isB && b.Name() == "delete" && len(x.Call.Args) == 2 {
+				if o := oa.of(x.Call.Args[0]); o&mask != 0 {
+					out = append(out, fmt.Sprintf("map entry deleted at %s from %s memory", f.Prog.Fset.Position(x.Pos()), o&mask))
+				}
+			}
 		}
 	})
 	sort.Strings(out)
